@@ -20,7 +20,7 @@ RULES = {
     "allow_outer_scope_values test whose other branch raises; GRAPH/GRAPHS attributes are cloned alike (S1)",
     "R4": "the functional pass wrapper uses its model parameter only as the receiver of .clone()",
 }
-FLOORS = {"R1": 30, "R2": 30, "R3": 2, "R4": 1}
+FLOORS = {"R1": 26, "R2": 30, "R3": 2, "R4": 1}
 EXPLANATION = (
     "A sharing analysis over the cloner and the clone() methods: each data flow original.field → clone is classified "
     "by the mutability of the field's declared class (computed from the source: setters, __setitem__, self-stores) "
